@@ -4,6 +4,7 @@
 verus! {
 spec fn holds_non_zset(s: SV, key: Vec<u8>) -> bool { s.data.contains_key(key) && !(s.data[key].value is SortedSet) }
 spec fn holds_non_stream(s: SV, key: Vec<u8>) -> bool { s.data.contains_key(key) && !(s.data[key].value is Stream) }
+spec fn zset_at(s: SV, key: Vec<u8>) -> Option<SkipList<Vec<u8>, f64>> { if s.data.contains_key(key) { match s.data[key].value { Value::SortedSet(z) => Some(*z), _ => None } } else { None } }
 spec fn stream_at(s: SV, key: Vec<u8>) -> Option<Stream> { if s.data.contains_key(key) { match s.data[key].value { Value::Stream(st) => Some(st), _ => None } } else { None } }
 
 impl StorageEngine {
@@ -88,6 +89,22 @@ impl StorageEngine {
             holds_non_zset(eff(*old(shard_guard), key_of(key@)), key_of(key@)) ==> r is Err,
             !eff(*old(shard_guard), key_of(key@)).data.contains_key(key_of(key@)) ==> r == Ok::<usize, FerrousError>(0),
             eff(*old(shard_guard), key_of(key@)).data.contains_key(key_of(key@)) && !holds_non_zset(eff(*old(shard_guard), key_of(key@)), key_of(key@)) ==> r is Ok,
+//@@ body
+//@@ end
+
+// ZRANGEBYSCORE / ZREVRANGEBYSCORE / ZCOUNT at the engine: the two bounds reach the skip list in the order (min, max), the answer is reversed
+// exactly when the reverse form is asked for, ZCOUNT is its length
+//@@ unit zrangebyscore fn src/storage/engine.rs StorageEngine::zrangebyscore
+//@@   params drop "db: DatabaseIndex" add "shard_guard: &mut DatabaseShard"
+//@@   rewrite R2
+//@@   rewrite RT "items.reverse();" "verif_reverse_items(&mut items);"
+    fn zrangebyscore(&self, shard_guard: &mut DatabaseShard, key: &[u8], min_score: f64, max_score: f64, reverse: bool) -> (r: Result<Vec<(Vec<u8>, f64)>>)
+        ensures
+            unchanged(eff(*old(shard_guard), key_of(key@)), sv(*final(shard_guard))),
+            holds_non_zset(eff(*old(shard_guard), key_of(key@)), key_of(key@)) ==> r is Err,
+            !eff(*old(shard_guard), key_of(key@)).data.contains_key(key_of(key@)) ==> (r matches Ok(v) && v@.len() == 0),
+            zset_at(eff(*old(shard_guard), key_of(key@)), key_of(key@)) matches Some(z) ==> (r matches Ok(v)
+                && v@ == (if reverse { spec_sl_by_score(z, min_score, max_score).reverse() } else { spec_sl_by_score(z, min_score, max_score) })),
 //@@ body
 //@@ end
 
